@@ -590,6 +590,13 @@ def register(chk):
         chk.add("canonical:%s" % which, ob_canonical, which)
 
 
+def include_in(chk):
+    """this check's obligations registered inside a check of a layer above (framework.Check.include)"""
+    prog()
+    chk.replayer = replay_canonical
+    register(chk)
+
+
 def main(argv=None):
     chk = Check("C09", "proof", argv)
     chk.replayer = replay_canonical
@@ -600,6 +607,9 @@ def main(argv=None):
                   "no loop bound: the byte loops have concrete trip counts"]
     chk.trusted = ["T5 sqrt contract, field axioms, odd group order (instantiated as stated in the module docstring)",
                    "byte-level specifications of Fq::read/write_big_endian, negate, compare (C02), is_on_curve (C05), subgroup test = [r]P == O (C06)", "z3"]
+    # lower layers whose specifications this check relies on: their obligations are part of this check's claim (framework.Check.include)
+    for dep in ['C06', 'C02', 'C04', 'C05']:
+        chk.include(dep)
     chk.run()
     chk.finish()
 
